@@ -20,16 +20,18 @@ def pre(res, tier):
     lem = []
     for name, ns, kw, extra, expect, nw in configs(tier):
         lem += vdeleg.lemma_units('vd', ns, **kw)
-    lem += vdeleg.lemma_units('vd', 'ipa', **INPLACE) + vdeleg.lemma_units('vd', 'ipb', **INPLACE)
+    lem += vdeleg.lemma_units('vd', 'ipa', **INPLACE) + vdeleg.lemma_units('vd', 'ipb', **INPLACE) + vdeleg.lemma_units('vd', 'tr', **TWOROLES)
     vdeleg.prove_checker_lemmas(res, sys.modules[__name__], lem)
 
 
 INPLACE = dict(R=1, M=1, N=1, junk=False)
+TWOROLES = dict(R=1, M=1, N=1, junk=False)
 
 
 def units(tier):
     us = [Unit(name, vdeleg.factory_vd(ns, PROPS, **extra, **kw), expect=expect, max_witnesses=nw) for name, ns, kw, extra, expect, nw in configs(tier)]
     us.append(Unit('trusted updated in place', vdeleg.factory_vd_inplace('ip', PROPS, **INPLACE), expect=('A/R', 'R/A', 'A/A', 'R/R'), max_witnesses=200))
+    us.append(Unit('one envelope, two roles in turn', vdeleg.factory_vd_tworoles('tr', PROPS, **TWOROLES), expect=('A/R', 'R/A', 'R/R'), max_witnesses=200))
     return us
 
 
@@ -38,11 +40,13 @@ def concrete(case):
         return {}
     if case.get('scenario') == 'vd_inplace':
         return vdeleg.run_vd_inplace(case)
+    if case.get('scenario') == 'vd_tworoles':
+        return vdeleg.run_vd_tworoles(case)
     return vdeleg.run_vd(case)
 
 
 def agrees(case, obs):
-    if case.get('scenario') == 'vd_inplace':
+    if case.get('scenario') in ('vd_inplace', 'vd_tworoles'):
         return 'outcomes' in obs and all(CC.same_outcome(p, o) for p, o in zip(case['predicted'], obs['outcomes']))
     return 'outcome' in obs and CC.same_outcome(case.get('predicted'), obs['outcome'])
 
@@ -52,12 +56,14 @@ def judge(case, obs):
         return None
     if case.get('scenario') == 'vd_inplace':
         return vdeleg.judge_vd_inplace(case, obs, PROPS)
+    if case.get('scenario') == 'vd_tworoles':
+        return vdeleg.judge_vd_tworoles(case, obs, PROPS)
     return vdeleg.judge_vd(case, obs, PROPS)
 
 
 BOUNDS = dict(trusted='delegating metadata with 2 roles of free names (<= 8 chars), 1 (quick) / 2 (thorough) free key strings (<= 66 chars) each, any int threshold (thorough: bool / binary64 too), free type (<= 8 chars), any int version, free 3-character expiration',
               untrusted='envelope whose signed part is such a document with one role (its delegations field present or absent, i.e. delegating metadata or not) and a free declared type; signature map of 1 (quick) / 2 (thorough) entries under free keys; C06 and the thorough tier add one junk entry of any JSON kind',
-              role_name='free string <= 8 chars', mode='gpg in {True, False}')
+              role_name='free string <= 8 chars (a second free name for the two-roles-in-turn unit)', mode='gpg in {True, False}')
 OUTSIDE = 'more roles / keys / entries than stated; untrusted payloads that are not dictionaries; ed25519 forgeability (Valid uninterpreted)'
 ASSUMPTIONS = ['A2 (Valid uninterpreted), A3 (canonical serialisation injective)',
                'well-formedness of delegating metadata = the schema of C14 with datetime.strptime abstracted by IsoOK; the checker is replaced by that schema on a template only after `checker accepts <=> schema` was proved for that very template in the same run (lemma units), and its rejection class is then abstracted to {TypeError, ValueError}']
